@@ -100,6 +100,22 @@ def gen_pregrown(rng, prefix, count, runs, sums=0.0, readers=0):
                             {"maxcells": mx, "maxsteps": 20000, "pglen": n, "pgcap": cap, "pgmask": mask, "sample": SAMPLE}))
     return out
 
+def gen_stale_len(rng, prefix, count, runs):
+    """the table has 2 of 4 slots (an in-place doubling is pending) and many updaters collide on ONE cell: an updater keeps
+    its 2-slot view across somebody else's in-place doubling and then grows the table itself - the growth decision and the
+    copy must both be made from the CURRENT table"""
+    out = []
+    for i in range(count):
+        kind = ["jdkadd", "jdkf"][i % 2] if i % 4 else "jdkadd"
+        used, ths = [], []
+        for t in range(rng.choice([4, 5, 6])):
+            ths.append([upd(rng, used, kind) for _ in range(rng.choice([3, 4]))])
+        words = [rng.choice([1, 3, 5, 7, 9, 2]) for _ in range(120)]
+        m = ("rand %d %d" % (runs * SAMPLE, rng.randint(1, 1 << 30))) if i % 2 == 0 else ("pct %d %d %d" % (runs * SAMPLE, rng.randint(1, 1 << 30), rng.choice([3, 5, 8])))
+        out.append(conc.Scn("%s%d" % (prefix, i), kind, words, ths, m,
+                            {"maxcells": rng.choice([8, 16]), "maxsteps": 20000, "pglen": 2, "pgcap": 4, "pgmask": 3, "sample": SAMPLE}))
+    return out
+
 def rand_mode(tier, q, t):
     return lambda r: "rand %d %d" % (scale(tier, q, t), r.randint(1, 1 << 30))
 
@@ -111,6 +127,7 @@ def gen_c02(tier, rng):
     s += gen_updates(rng, "d", ["rc", "atomic", "atomicf", "mutexadd"], scale(tier, 12, 100), [2, 3], [2, 3], "dfs 2 %d" % scale(tier, 1500, 20000), big=True)
     s += gen_growth(rng, "g", scale(tier, 24, 100), scale(tier, 400, 4000))
     s += gen_pregrown(rng, "h", scale(tier, 48, 120), scale(tier, 400, 4000))
+    s += gen_stale_len(rng, "sl", scale(tier, 16, 60), scale(tier, 1200, 6000))
     return s
 
 def gen_c09(tier, rng):
@@ -121,6 +138,7 @@ def gen_c09(tier, rng):
     s += gen_updates(rng, "d", ["rc", "atomic", "atomicf", "mutexadd"], scale(tier, 10, 80), [2, 3], [2, 3], "dfs 2 %d" % scale(tier, 1500, 20000), sums=0.35)
     s += gen_growth(rng, "g", scale(tier, 24, 120), scale(tier, 500, 4000), sums=0.0, readers=2)
     s += gen_pregrown(rng, "h", scale(tier, 48, 150), scale(tier, 500, 4000), sums=0.0, readers=1)
+    s += gen_stale_len(rng, "sl", scale(tier, 16, 60), scale(tier, 1200, 6000))
     return s
 
 ALLOPS = ["a", "a", "a", "i", "d", "s", "s", "r", "q", "w"]
@@ -172,6 +190,10 @@ def gen_c16(tier, rng):
     s = []
     s += gen_exhaustive_scripts(tier, rng)
     s += gen_big_tables(tier, rng)
+    # the concurrent update phases are what creates and grows the table: the growth families, judged at quiescence
+    s += gen_growth(rng, "g", scale(tier, 12, 80), scale(tier, 400, 4000))
+    s += gen_pregrown(rng, "h", scale(tier, 32, 100), scale(tier, 400, 4000))
+    s += gen_stale_len(rng, "sl", scale(tier, 16, 60), scale(tier, 1200, 6000))
     kinds = ["jdkadd", "jdkf", "rc", "atomic", "atomicf", "mutexadd"]
     # single-threaded scripts over the whole API
     for i in range(scale(tier, 150, 2500)):
